@@ -84,10 +84,20 @@ class AsyncContext(object):
     """
 
     def __enter__(self):
-        if not is_asyncio_mode():
-            self._active_task = enter_context(self)
+        if is_asyncio_mode():
+            self.resume()
+            return self
 
-        self.resume()
+        self._active_task = enter_context(self)
+        try:
+            self.resume()
+        except BaseException:
+            # the with block is not entered and __exit__ will not run: don't leave the
+            # context registered with the task, or the scheduler would keep pausing and
+            # resuming it whenever the task is suspended
+            leave_context(self, self._active_task)
+            del self._active_task
+            raise
         return self
 
     def __exit__(self, ty, value, tb):
